@@ -118,6 +118,24 @@ type dialer struct{ rwc io.ReadWriteCloser }
 
 func (d dialer) Dial(context.Context) (io.ReadWriteCloser, error) { return d.rwc, nil }
 
+// fakenetRetains probes (once) whether fakenet hands the caller's buffer to its sink.
+var fakenetRetains = sync.OnceValue(func() bool {
+	got := make(chan []byte, 1)
+	pr, pw := io.Pipe()
+	conn := fakenet.NewConn("probe", pr, writerFunc(func(p []byte) (int, error) { got <- p; return len(p), nil }))
+	buf := []byte("x")
+	conn.Write(buf)
+	p := <-got
+	conn.Close()
+	pw.Close()
+	return &p[0] == &buf[0]
+})
+
+type writerFunc func([]byte) (int, error)
+
+func (f writerFunc) Write(p []byte) (int, error) { return f(p) }
+func (f writerFunc) Close() error                { return nil }
+
 // ---- run state ----------------------------------------------------------------------------------------
 
 type callRec struct {
@@ -511,6 +529,9 @@ func execute(c Case) (v *vk.Verdict, in info, capped bool) {
 	sb := &side{name: "b", handled: map[string]int{}, notes: map[int]int{}, peerRead: abw[0], ownWrite: ab[1]}
 	sa.rwc = &duplex{r: ab[1], w: abw[0]}
 	sb.rwc = &duplex{r: ab[0], w: abw[1]}
+	if c.Transport == "fakenet" && fakenetRetains() {
+		c.Transport = "pipe" // finding C41-buffer-retained: a data race of fakenet itself would end the process
+	}
 	if c.Transport == "fakenet" {
 		sa.rwc = fakenet.NewConn("a", sa.rwc, sa.rwc)
 		sb.rwc = fakenet.NewConn("b", sb.rwc, sb.rwc)
@@ -681,6 +702,8 @@ func execute(c Case) (v *vk.Verdict, in info, capped bool) {
 			}
 		case "close":
 			r.closeSide(s)
+			// "Close has been called" = the connection has taken note of it
+			waitUntil(func() bool { return s.conn.VerifState().ConnClosing })
 		case "disconnect":
 			s.rwc.Close()
 		case "readerr":
@@ -711,6 +734,9 @@ func execute(c Case) (v *vk.Verdict, in info, capped bool) {
 			return vk.Bad("no-quiescence", "calls neither complete nor does the process become quiescent within %v; goroutines:\n%s", hardCap, clip(dump, 30000)), in, true
 		}
 		if drained {
+			if n := strings.Count(dump, ").processResult("); readLoopsWriting(dump) >= 2 && n >= 2 {
+				return vk.Bad("read-loop-write-deadlock", "every goroutine is blocked: the read loops of both connections are writing a response (acceptRequest -> processResult -> write) while the peer, doing the same, does not read; %s; goroutines:\n%s", r.unreturned(), clip(dump, 30000)), in, false
+			}
 			return vk.Bad("await-stall", "every goroutine is blocked, all handlers have been released and answered, yet %s; goroutines:\n%s", r.unreturned(), clip(dump, 30000)), in, false
 		}
 		drained = true
@@ -745,6 +771,18 @@ func execute(c Case) (v *vk.Verdict, in info, capped bool) {
 			sa.conn.VerifState(), sb.conn.VerifState(), clip(dump, 30000)), in, false
 	}
 	return r.judge(&in), in, capped
+}
+
+// readLoopsWriting counts goroutines that are inside readIncoming and, further up the stack,
+// inside Connection.write.
+func readLoopsWriting(dump string) int {
+	n := 0
+	for _, g := range strings.Split(dump, "\n\n") {
+		if strings.Contains(g, ".(*Connection).readIncoming(") && strings.Contains(g, ".(*Connection).write(") {
+			n++
+		}
+	}
+	return n
 }
 
 func (r *run) unreturned() string {
@@ -975,6 +1013,10 @@ var oracle = vk.Register("history", func(c Case) *vk.Verdict { v, _ := check(c);
 func genCase(t *rapid.T) Case {
 	var c Case
 	c.Transport = rapid.SampledFrom([]string{"pipe", "pipe", "fakenet"}).Draw(t, "transport")
+	if c.Transport == "fakenet" && fakenetRetains() {
+		vk.R.Excluded("steered-away:fakenet-transport(C41-buffer-retained)")
+		c.Transport = "pipe"
+	}
 	sideG := rapid.SampledFrom([]string{"a", "a", "b"})
 	opG := rapid.Custom(func(t *rapid.T) ClientOp {
 		op := ClientOp{Side: sideG.Draw(t, "side")}
@@ -1076,4 +1118,29 @@ func TestHistories(t *testing.T) {
 	vk.R.Rapid(t, 1, 1500, 40000, func(t *rapid.T) {
 		run1(t, genCase(t), "src=generated")
 	})
+}
+
+// TestShapes: deterministic shapes (fixed corpus).
+func TestShapes(t *testing.T) {
+	if vk.R.Shard != 0 {
+		return
+	}
+	shapes := []Case{
+		// crossing calls, both sides closing: each read loop rejects the peer's call by writing
+		// from the read loop
+		{Transport: "pipe", Clients: [][]ClientOp{{{Kind: "call", Side: "a", Method: "echo", Defer: true}}, {{Kind: "call", Side: "b", Method: "echo", Defer: true}}},
+			Timeline: []Control{{Kind: "close", Side: "a", After: Trigger{Kind: "hook", N: 1, Side: "b", Point: "read:msg"}}, {Kind: "close", Side: "b", After: Trigger{Kind: "hook", N: 1, Side: "a", Point: "read:msg"}}},
+			Script:   []Yield{{Side: "a", Point: "read:msg", K: 0, ParkStep: 3}, {Side: "b", Point: "read:msg", K: 0, ParkStep: 3}}},
+		// Close while a slow handler runs and a call is in flight
+		{Transport: "pipe", Clients: [][]ClientOp{{{Kind: "call", Side: "a", Method: "slow"}}, {{Kind: "call", Side: "a", Method: "echo", Defer: true}, {Kind: "call", Side: "b", Method: "async"}}},
+			Timeline: []Control{{Kind: "close", Side: "b", After: Trigger{Kind: "issued", N: 2}}, {Kind: "release", Side: "b"}, {Kind: "respond", Side: "a"}}},
+		// the peer vanishes while calls are outstanding
+		{Transport: "pipe", Clients: [][]ClientOp{{{Kind: "call", Side: "a", Method: "cancel-me"}}, {{Kind: "call", Side: "a", Method: "slow", Defer: true}, {Kind: "call", Side: "a", Method: "async"}}},
+			Timeline: []Control{{Kind: "disconnect", Side: "b", After: Trigger{Kind: "issued", N: 3}}}},
+	}
+	for _, c := range shapes {
+		for rep := 0; rep < 10; rep++ {
+			run1(t, c, "src=shapes")
+		}
+	}
 }
